@@ -345,9 +345,10 @@ def run_pair(rec, case):
     R = hist.Runner(sim)
 
     def V(key, msg):
-        rec.viol(key, msg + ' | PAIR server=%s mode=%s causes=(%s,%s) '
-                 'schedule-seed=%d history=%s' % (srv, mode, c1, c2, seed,
-                                                  R.witness(20)), case)
+        rec.viol(key, msg + ' | PAIR server=%s mode=%s causes=(%s,%s) gap=%d '
+                 'schedule-seed=%d history=%s' % (
+                     srv, mode, c1, c2, case.get('gap', 0), seed,
+                     R.witness(20)), case)
     try:
         s = R.open('websocket' if mode == 'websocket' else 'polling',
                    autopoll=True, autopong=None if 'timeout' in (c1, c2)
@@ -367,6 +368,9 @@ def run_pair(rec, case):
             sim.advance(1)
         rec.count('cause_pairs')
         ok1 = apply_cause(R, s, c1, pi, pt)
+        # the second cause starts `gap` scheduling steps / loop iterations
+        # after the first (0 = same instant, before anything ran)
+        sim.step(case.get('gap', 0))
         ok2 = apply_cause(R, s, c2, pi, pt)
         if not (ok1 and ok2):
             return
@@ -476,9 +480,12 @@ def plan(tier, seed):
             for c1 in CAUSES:
                 for c2 in CAUSES:
                     for sc in (scheds if srv == 'T' else [0]):
-                        pairs.append({'pair': True, 'srv': srv, 'mode': mode,
-                                      'c1': c1, 'c2': c2, 'sched': sc + (
-                                          seed * 1000 if sc else 0)})
+                        for gap in ((0, 1, 2, 3, 5) if (srv == 'A' or sc == 0)
+                                    else (0,)):
+                            pairs.append({'pair': True, 'srv': srv,
+                                          'mode': mode, 'c1': c1, 'c2': c2,
+                                          'gap': gap, 'sched': sc + (
+                                              seed * 1000 if sc else 0)})
     for i in range(4):
         shards.append({'pairs': pairs[i::4]})
     # pre-emptive tier (OS-thread backend, line-level pre-emption)
